@@ -18,7 +18,9 @@ import (
 type Adversary struct {
 	W        *World
 	S        *Sim
-	Shadow   *Node
+	Shadow   *Node   // the head in use (set by act for each head in turn)
+	Heads    []*Node // one or two shadow nodes; with two, a partition can put one on each side (split-brain equivocation)
+	headSlot map[*Node]int
 	Keys     map[string]*Validator // by address
 	Made     []*blockchain.Block   // every block the adversary signed
 	held     []heldBlock           // withheld blocks (private fork) to be released later
@@ -28,35 +30,69 @@ type Adversary struct {
 }
 
 type heldBlock struct {
+	from    *Node
 	b       *blockchain.Block
 	release time.Duration
 }
 
 // AddAdversary creates the shadow node (a member of the simulated network) holding the Byzantine keys.
 func (w *World) AddAdversary() *Adversary {
-	a := &Adversary{W: w, S: w.S, Keys: map[string]*Validator{}, Stats: map[string]int{}, Enabled: true, lastSlot: -1}
-	n := w.S.AddNode()
-	n.Name = "adv"
-	n.IsAdversary = true
-	for _, v := range w.Byz {
-		a.Keys[string(v.Address)] = v
-		n.Keys = append(n.Keys, v)
+	a := &Adversary{W: w, S: w.S, Keys: map[string]*Validator{}, Stats: map[string]int{}, Enabled: true, lastSlot: -1, headSlot: map[*Node]int{}}
+	nh := simkit.Int(w.T, "advheads", 1, 2)
+	for h := 0; h < nh; h++ {
+		n := w.S.AddNode()
+		n.Name = []string{"adv", "adv2"}[h]
+		n.IsAdversary = true
+		for _, v := range w.Byz {
+			a.Keys[string(v.Address)] = v
+			n.Keys = append(n.Keys, v)
+		}
+		a.Heads = append(a.Heads, n)
+		a.headSlot[n] = -1
 	}
-	a.Shadow = n
+	a.Shadow = a.Heads[0]
 	w.S.Adv = a
 	return a
 }
 
+// IsHead reports whether the peer is one of the adversary's shadow nodes.
+func (a *Adversary) IsHead(p p2p.PeerID) bool {
+	for _, n := range a.Heads {
+		if n.Peer == p {
+			return true
+		}
+	}
+	return false
+}
+
 // Start starts the shadow node and the adversary's own tick.
 func (a *Adversary) Start() {
-	if err := a.Shadow.Start(); err != nil {
-		a.W.T.Fatalf("infra: start shadow: %v", err)
+	for _, n := range a.Heads {
+		if err := n.Start(); err != nil {
+			a.W.T.Fatalf("infra: start shadow: %v", err)
+		}
 	}
 	var tick func()
 	tick = func() {
-		if a.Shadow.Up && a.Enabled {
+		a.release()
+		for i, n := range a.Heads {
+			if !n.Up || !a.Enabled {
+				continue
+			}
+			// the second head only acts when it follows another branch than the first (otherwise it would just
+			// double every block)
+			if i > 0 && bytes.Equal(n.Tip().ID, a.Heads[0].Tip().ID) {
+				continue
+			}
+			a.Shadow = n
+			a.lastSlot = a.headSlot[n]
 			a.act()
+			a.headSlot[n] = a.lastSlot
+			if i > 0 {
+				simkit.Probe("byz_second_head_acted_on_other_branch")
+			}
 		}
+		a.Shadow = a.Heads[0]
 		a.S.At(time.Second, "adv tick", tick)
 	}
 	a.S.At(333*time.Millisecond, "adv tick", tick)
@@ -108,14 +144,13 @@ func cloneBlock(b *blockchain.Block) *blockchain.Block {
 	return c
 }
 
-// act is called every simulated second.
-func (a *Adversary) act() {
-	t := a.W.T
-	// release withheld blocks that are due
+// release sends withheld blocks that are due.
+func (a *Adversary) release() {
 	now := a.S.Now()
 	kept := a.held[:0]
 	for _, h := range a.held {
 		if h.release <= now {
+			a.Shadow = h.from
 			a.sendToAll(h.b, 0)
 			a.Stats["released_withheld"]++
 		} else {
@@ -123,6 +158,13 @@ func (a *Adversary) act() {
 		}
 	}
 	a.held = kept
+	a.Shadow = a.Heads[0]
+}
+
+// act is called every simulated second for each head.
+func (a *Adversary) act() {
+	t := a.W.T
+	now := a.S.Now()
 	slot := a.slotNow()
 	if slot == a.lastSlot {
 		return
@@ -167,7 +209,7 @@ func (a *Adversary) act() {
 		simkit.Fault("byz_wrong_maxheightgenerated")
 	case 3: // withhold: release later
 		a.record(b)
-		a.held = append(a.held, heldBlock{b, now + time.Duration(simkit.Int(t, "withhold", 1, 6))*a.W.BlockTime})
+		a.held = append(a.held, heldBlock{a.Shadow, b, now + time.Duration(simkit.Int(t, "withhold", 1, 6))*a.W.BlockTime})
 		a.Stats["withheld"]++
 		simkit.Fault("byz_withhold")
 	case 4: // send to a drawn subset only
